@@ -62,6 +62,8 @@ func init() {
 	register(PropSpec{ID: "C40", Harnesses: []HarnessSpec{
 		{Name: "keys", Pkg: "keys", Files: []string{"keys/c40_keys.go"}, Entry: "VerifC40Keys", Reach: []string{"value-fits", "encoded"},
 			Outside: []string{"keys longer than maxKeyLen bytes (only the last two bytes are read)", "value lengths above maxValLen"}},
+		{Name: "insert", Pkg: "state/tstate", Files: []string{"tstate/c40_insert.go"}, Entry: "VerifC40Insert", Reach: []string{"value-fits", "value-refused"},
+			Outside: []string{"value sizes other than 0, 1, 64, 65, 128, 129 bytes (chunk boundaries) in the view-level harness; the chunk arithmetic for all sizes is the keys harness"}},
 	}})
 }
 
@@ -75,7 +77,9 @@ func init() {
 			Assumptions: []string{"block timestamp >= 0 and validity window >= 0 (documented domain; negative windows make ts+window wrap)"}},
 		{Name: "preexecute", Pkg: "chain", Files: []string{"chain/common.go", "chain/c10_preexecute.go"}, Entry: "VerifC10PreExecute", Reach: []string{"accepted", "rejected"},
 			Stubs:   []string{"actions/auth are harness types with symbolic activation ranges", "balance handler = harness handler with ample balance", "chain IDs symbolic in bytes 0 and 31"},
-			Outside: []string{"more than maxActions actions", "VM.Submit plumbing (PreExecutor is C07/C09)"}},
+			Outside: []string{"more than maxActions actions (see harness actioncount)", "VM.Submit plumbing (PreExecutor is C07/C09)"}},
+		{Name: "actioncount", Pkg: "chain", Files: []string{"chain/common.go", "chain/c10_preexecute.go"}, Entry: "VerifC10ActionCount", Reach: []string{"accepted", "rejected"},
+			Outside: []string{"action counts other than 0, 1, 254..257, 271, 272, 511..513 (boundary values of the 8-bit limit); more than 2^16 actions"}},
 	}})
 }
 
